@@ -204,32 +204,33 @@ Section Int.
 
   (* ---- construction ---- *)
 
-  (* the caller-supplied / estimated start is inside [0, ceiling] *)
-  Definition start_ok (maxr relay : Z) (start_opt : option Z) : Prop :=
+  (* the only requirement on the caller-supplied start / the relay fee: they
+     are not negative.  NewLinearFeeFunction caps the start at the ceiling. *)
+  Definition start_ok (relay : Z) (start_opt : option Z) : Prop :=
     match start_opt with
-    | Some s => 0 <= s <= maxr
-    | None => 0 <= relay <= maxr /\ 0 < maxr
+    | Some s => 0 <= s
+    | None => 0 <= relay
     end.
 
   Lemma estimate_range : forall relay ans maxr r,
-    0 <= relay <= maxr -> 0 < maxr -> estimate relay ans maxr = Ok r -> relay <= r <= maxr.
+    0 <= relay -> 0 <= maxr -> estimate relay ans maxr = Ok r -> Z.min relay maxr <= r.
   Proof.
     intros relay ans maxr r Hr Hm H. unfold estimate in H.
     destruct ans as [x|]; [|discriminate].
     destruct (x <? relay) eqn:E1; [discriminate|]. apply Z.ltb_ge in E1.
-    destruct (maxr =? 0) eqn:E0; [apply Z.eqb_eq in E0; lia|]. cbn [negb andb] in H.
-    destruct (maxr <? x) eqn:E2; inversion H; subst.
-    - lia.
-    - apply Z.ltb_ge in E2. lia.
+    destruct (negb (maxr =? 0) && (maxr <? x)); inversion H; subst; lia.
   Qed.
 
   Lemma new_ff_inv : forall maxr conf relay ans so f,
-    0 <= maxr <= RMAX -> 0 <= conf < WMAX -> start_ok maxr relay so ->
+    0 <= maxr <= RMAX -> 0 <= conf < WMAX -> start_ok relay so ->
     new_ff sdelta maxr conf relay ans so = Ok f ->
     inv f /\ ff_end f = maxr /\ ff_pos f = 0 /\
     (conf <= 1 -> ff_cur f = maxr) /\
     (1 < conf -> ff_width f = conf - 1 /\
-       match so with Some s => ff_cur f = s | None => relay <= ff_cur f end).
+       match so with
+       | Some s => ff_cur f = Z.min s maxr
+       | None => Z.min relay maxr <= ff_cur f
+       end).
   Proof.
     intros maxr conf relay ans so f Hm Hc Hs H. unfold new_ff in H.
     destruct (conf <=? 1) eqn:E.
@@ -239,31 +240,37 @@ Section Int.
       cbn [ff_start ff_cur ff_end ff_pos ff_width]. split; [lia|]. split; [|reflexivity].
       intros q Hq. rewrite rate_at_ge_width by (cbn; lia). cbn. lia.
     - apply Z.leb_gt in E.
-      assert (Hst : exists s, (match so with Some s => Ok s
-                               | None => estimate_fee_rate relay ans conf maxr end) = Ok s /\
-                              0 <= s <= maxr /\
-                              match so with Some s' => s = s' | None => relay <= s end).
+      assert (Hst : exists s0, (match so with Some s => Ok s
+                                | None => estimate_fee_rate relay ans conf maxr end) = Ok s0 /\
+                               0 <= s0 /\
+                               match so with Some s' => s0 = s' | None => Z.min relay maxr <= s0 end).
       { destruct so as [s|]; cbn in Hs.
         - exists s. auto.
-        - destruct Hs as (Hr & Hp). unfold estimate_fee_rate in *.
+        - unfold estimate_fee_rate in *.
           destruct (max_block_target <=? conf).
           + exists relay. repeat split; auto; lia.
           + destruct (estimate relay ans maxr) as [r|e] eqn:Ee; [|discriminate].
-            exists r. pose proof (estimate_range _ _ _ _ Hr Hp Ee). repeat split; auto; lia. }
-      destruct Hst as (s & Hse & Hsr & Hsm). rewrite Hse in H.
+            exists r. assert (Hm0 : 0 <= maxr) by lia.
+            pose proof (estimate_range _ _ _ _ Hs Hm0 Ee). repeat split; auto; lia. }
+      destruct Hst as (s0 & Hse & Hs0 & Hsm). rewrite Hse in H.
+      set (s := if maxr <? s0 then maxr else s0) in *.
+      assert (Hsr : 0 <= s <= maxr /\ s = Z.min s0 maxr).
+      { subst s. destruct (maxr <? s0) eqn:El; [apply Z.ltb_lt in El|apply Z.ltb_ge in El]; lia. }
+      destruct Hsr as (Hsr & Hsmin).
       rewrite wrap64_id in H by (unfold RMAX in *; lia).
       destruct ((sdelta (maxr - s) (conf - 1) =? 0) && negb (conf - 1 =? 1)); [discriminate|].
-      inversion H; subst; clear H. cbn [ff_end ff_pos ff_cur ff_width].
+      inversion H; subst f; clear H. cbn [ff_end ff_pos ff_cur ff_width].
       destruct Hsc as (Hn & Hu & _ & _).
       assert (0 <= sdelta (maxr - s) (conf - 1)) by (apply Hn; unfold BMAX, RMAX, WMAX in *; lia).
       assert (sdelta (maxr - s) (conf - 1) <= DMAX) by (apply Hu; unfold RMAX, WMAX in *; lia).
       assert (Hwf : wf (mkFF s maxr s (conf - 1) 0 (sdelta (maxr - s) (conf - 1)))).
       { unfold wf; cbn. repeat split; try lia. }
-      split; [|repeat split; auto; try lia].
+      split; [|split; [reflexivity|split; [reflexivity|split; [intros; lia|]]]].
       + unfold inv. split; [exact Hwf|].
         cbn [ff_start ff_cur ff_end ff_pos ff_width]. split; [lia|]. split.
         * intros q Hq. apply (rate_at_ge_start _ q Hwf). lia.
         * intros Hx. lia.
+      + intros _. split; [reflexivity|]. destruct so; lia.
   Qed.
 
   (* ---- sweep tx arithmetic ---- *)
